@@ -274,6 +274,43 @@ func ruleHdrCarryover(p *Prog, r *Out) {
 			fmt.Sprintf("%s decodes a header block frame by frame but has no carry-over for a field cut by the frame boundary (saved cursor=%q, store on ErrUnexpectedSize without END_HEADERS=%v, next frame appended after it=%v): a header block split inside a field fails, and the partly consumed bytes leave the shared HPACK state out of step", dl.fn, saved, carry, startsWithCarry))
 		// (d) block position passed to the decoder
 		positional := p.calleeOf(dl.call) == "(*HPACK).nextField" && len(dl.call.Args) == 4 && p.text(dl.call.Args[1]) != "true"
+		// the position is per-block state kept on the stream, reset when a HEADERS
+		// frame opens a block, advanced once per decoded field
+		if positional {
+			fld := ""
+			ast.Inspect(dl.call.Args[2], func(n ast.Node) bool {
+				if sel, ok := n.(*ast.SelectorExpr); ok {
+					if o, f, ok := p.fieldOf(sel); ok && o == "Stream" {
+						fld = f
+					}
+				}
+				return true
+			})
+			usesInBoth := fld != "" && strings.Contains(p.text(dl.call.Args[1]), "."+fld)
+			reset, incs := false, 0
+			if fld != "" {
+				hpm := p.pmFor(dl.fd)
+				ast.Inspect(dl.fd.Body, func(n ast.Node) bool {
+					switch x := n.(type) {
+					case *ast.AssignStmt:
+						if len(x.Lhs) == 1 && p.isFieldSel(x.Lhs[0], "Stream", fld) && p.text(x.Rhs[0]) == "0" && x.Pos() < dl.loop.Pos() {
+							for _, g := range p.knownFacts(hpm, x) {
+								if g.Val && squash(p.text(g.Cond)) == "fr.Type()!=FrameContinuation" {
+									reset = true
+								}
+							}
+						}
+					case *ast.IncDecStmt:
+						if p.isFieldSel(x.X, "Stream", fld) && x.Tok == token.INC && x.Pos() > dl.loop.Pos() {
+							incs++
+						}
+					}
+					return true
+				})
+			}
+			r.check(usesInBoth && reset && incs >= 2, key+" block position survives frames", p.pos(dl.call.Pos()), "fields-decoded-in-this-block kept on the stream: reset by HEADERS, ++ per field",
+				fmt.Sprintf("%s derives the decoder's block position from per-call state (stream field=%q, reset under a non-CONTINUATION frame=%v, increments=%d): when the first field after a dynamic table size update is cut by the frame boundary, the carried-over bytes (which begin with the update) are decoded again on the CONTINUATION as 'not at block start' and a legal block is refused with COMPRESSION_ERROR", dl.fn, fld, reset, incs))
+		}
 		r.check(positional, key+" passes block position", p.pos(dl.call.Pos()), "decoder told whether this is the start of a block",
 			fmt.Sprintf("%s calls the field decoder without block position (always 'start of block'): a dynamic table size update in the middle of a block, or in a CONTINUATION, is accepted where RFC 7541 s4.2 requires a decoding error", dl.fn))
 	}
